@@ -289,6 +289,10 @@ class PrecipitateModel (PrecipitateBase):
                     self.pData.xEqAlpha[self.pData.n,p] = c_eq_alpha
                     self.pData.xEqBeta[self.pData.n,p] = c_eq_beta
 
+        #Y was copied before the equilibrium compositions were computed, the binary impingement function (type 2) needs them
+        Y.xEqAlpha[0] = self.pData.xEqAlpha[self.pData.n]
+        Y.xEqBeta[0] = self.pData.xEqBeta[self.pData.n]
+
         x = [self.PBM[p].PSD for p in range(len(self.phases))]
         Y = self._calcNucleationRate(self.pData.time[self.pData.n], x, Y)
         self.growth, Y = self._growthRate(Y)
